@@ -202,7 +202,7 @@ def rule_distinct_count(ctx):
 
 def rule_only_accepted_rows(ctx):
     ctx.res.minimum("O5.3", 1)
-    protocol.validate_row_table(ctx, "O5.3")
+    protocol.validate_row_table(ctx, "O5.3", aspects=())
 
 
 def check_classes(model):
